@@ -26,15 +26,31 @@ def job(D, geo, x0, mode, target, cons, seed, base="F", opts=None):
     return dict(D=D, geo=geo, x0=x0, mode=mode, target=target, cons=cons, base=base, seed=seed, opts=o, monitors=MON, script={})
 
 
+_STUB = []
+
+
+def _stub_bads():
+    """A real BADS instance whose bound state the table overwrites (the method is then called as in the main loop)."""
+    if not _STUB:
+        import pybads.bads.bads as bb
+
+        _STUB.append(bb.BADS(lambda x: 0.0, x0=np.zeros((1, 1)), lower_bounds=np.full((1, 1), -5.0), upper_bounds=np.full((1, 1), 5.0),
+                             plausible_lower_bounds=np.full((1, 1), -2.0), plausible_upper_bounds=np.full((1, 1), 2.0), options={"display": "off"}))
+    return _STUB[0]
+
+
 def search_bounds_cell(cell):
     """E3 cell: (exponent e, lb, ub) -> list of violated clauses, judged on the real _update_search_bounds_."""
     import pybads.bads.bads as bb
 
     e, lb, ub = cell
     mesh = 2.0**e
-    stub = types.SimpleNamespace(optim_state={"lb": np.array([lb], float).reshape(1, -1), "ub": np.array([ub], float).reshape(1, -1),
-                                              "search_mesh_size": mesh})
-    lbs, ubs = bb.BADS._update_search_bounds_(stub)
+    stub = _stub_bads()
+    stub.optim_state["lb"] = np.array([lb], float).reshape(1, -1)
+    stub.optim_state["ub"] = np.array([ub], float).reshape(1, -1)
+    stub.optim_state["search_mesh_size"] = mesh
+    stub.search_mesh_size = mesh
+    lbs, ubs = stub._update_search_bounds_()
     lbs, ubs = np.ravel(lbs), np.ravel(ubs)
     bad = []
     L, U = np.array([lb], float).ravel(), np.array([ub], float).ravel()
@@ -65,12 +81,12 @@ def run(ctx):
     ng = gate([job(2, "mixed", "lb", "det", "sphere_out", "half", seeds[0]), job(1, "log", "ub", "decl", "sphere_corner", None, seeds[0])])
     sink = E1Sink(rep, PID)
     Ds = (1, 2) if q else (1, 2, 3)
-    geos = ("lin", "tight", "log", "mixed", "unb", "log2", "lin2")
+    geos = ("lin", "tight", "log", "mixed", "unb", "log2", "lin2", "mixunb")
     # (a) complete product, b=0
     base = []
     for D in Ds:
         for g in geos:
-            if g == "mixed" and D == 1:
+            if g in ("mixed", "mixunb") and D == 1:
                 continue
             for x0 in ("in", "lb", "ub", "absent"):
                 for mode in ("det", "auto", "decl"):
@@ -92,6 +108,14 @@ def run(ctx):
     # (d) long runs pressing against the faces
     lg = [job(D, g, "in", "det", "sphere_out", None, s, opts={"tol_mesh": 1e-6, "max_fun_evals": 150}) for D in Ds for g in ("lin", "log", "mixed", "log2", "lin2") if not (g == "mixed" and D == 1) for s in seeds]
     st = explore(lg, ["ans"], 0, sink, stats=st, name="long/faces")
+    # (g) starts just beyond the 0.1% margin of a hard bound, also with coarse search grids (the snapped start may cross the bound)
+    nb = [job(D, g, x0, "det", "sphere_out", None, seeds[0], opts=dict(o, max_fun_evals=12, tol_mesh=1e-6)) for D in (1, 2) for g in ("lin", "lin2", "log", "log2", "tight")
+          for x0 in ("near_ub", "near_lb", "near_ub3", "near_lb3") for o in ({}, {"search_grid_number": 4}, {"search_grid_number": 2}, {"search_grid_number": 7})]
+    st = explore(nb, ["ans"], 0, sink, stats=st, name="starts-near-bounds")
+    # (h) mesh re-expansion pressing on off-grid bounds (noisy runs re-expand after refinements; search_mesh_expand forces it)
+    rx = [job(D, g, "in", m, "sphere_out", None, s, opts=dict(o, max_fun_evals=70 if m == "det" else 90)) for D in (1, 2) for g in ("lin2", "log2")
+          for m in ("det", "decl") for o in ({}, {"search_mesh_expand": 1}) for s in (seeds + [seeds[0] + 11, seeds[0] + 12] if not q else seeds + [seeds[0] + 11])]
+    st = explore(rx, ["ans", "noise"], 0, sink, stats=st, name="mesh-re-expansion")
     # (f) option variants
     sw = sweep_jobs(lambda D, m, o: job(D, "log2" if D == 1 else "lin", "ub", m, "sphere_out", None, seeds[0], opts=o), q)
     st = explore(sw, ["ans", "noise"], 0, sink, stats=st, name="option-variants")
